@@ -66,6 +66,7 @@ type Model struct {
 	expanding     map[*Func]bool
 	noExpand      bool
 	inlinedLocals map[ast.Expr]ast.Expr
+	binds         []map[types.Object]ast.Expr
 }
 
 // NewModel builds the function index for package ecs of the program.
